@@ -11,6 +11,7 @@ import (
 	"time"
 
 	"github.com/nspcc-dev/neofs-node/pkg/local_object_storage/blobstor/common"
+	"github.com/nspcc-dev/neofs-node/pkg/util/verifhook"
 	oid "github.com/nspcc-dev/neofs-sdk-go/object/id"
 	"go.uber.org/zap"
 	"golang.org/x/sys/unix"
@@ -84,6 +85,11 @@ func (w *linuxWriter) newSyncBatch() (*syncBatch, error) {
 
 func (w *linuxWriter) createBatch() (*syncBatch, error) {
 	fd, err := unix.Open(w.root, w.bFlags, w.perm)
+	if ferr := verifhook.Fault("fstree.batch.open"); ferr != nil && err == nil {
+		_ = unix.Close(fd)
+		err = ferr
+	}
+	verifhook.Point("fstree.after.batch.open")
 	if err != nil {
 		return nil, err
 	}
@@ -112,12 +118,20 @@ func (b *syncBatch) intSync() {
 
 	if b.err == nil && !b.noSync {
 		err = unix.Fdatasync(b.fd)
+		if ferr := verifhook.Fault("fstree.batch.fdatasync"); ferr != nil && err == nil {
+			err = ferr
+		}
+		verifhook.Point("fstree.after.batch.fdatasync")
 		if err != nil {
 			b.err = err
 		}
 	}
 
 	err = unix.Close(b.fd)
+	if ferr := verifhook.Fault("fstree.batch.close"); ferr != nil && err == nil {
+		err = ferr
+	}
+	verifhook.Point("fstree.after.batch.close")
 	if b.err == nil && err != nil {
 		b.err = err
 	}
@@ -144,6 +158,10 @@ func (b *syncBatch) write(id oid.ID, p string, data []byte) error {
 	binary.BigEndian.PutUint32(pref[combinedLengthOff:], uint32(len(data)))
 
 	n, err := unix.Writev(b.fd, [][]byte{pref[:], data})
+	if ferr := verifhook.Fault("fstree.batch.writev"); ferr != nil && err == nil {
+		err = ferr
+	}
+	verifhook.Point("fstree.after.batch.writev")
 	if err != nil {
 		b.err = err
 		b.intSync()
@@ -157,6 +175,13 @@ func (b *syncBatch) write(id oid.ID, p string, data []byte) error {
 	b.size += n
 	b.cnt++
 	err = unix.Linkat(unix.AT_FDCWD, b.procname, unix.AT_FDCWD, p, unix.AT_SYMLINK_FOLLOW)
+	if ferr := verifhook.Fault("fstree.batch.linkat"); ferr != nil {
+		if err == nil {
+			_ = unix.Unlink(p) // the injected failure stands for a link that was not made
+		}
+		err = ferr
+	}
+	verifhook.Point("fstree.after.batch.linkat")
 	if err != nil {
 		if errors.Is(err, unix.EEXIST) {
 			// https://github.com/nspcc-dev/neofs-node/issues/2563
@@ -231,14 +256,30 @@ func (w *linuxWriter) writeCombinedFile(id oid.ID, p string, data []byte) error 
 
 func (w *linuxWriter) writeFile(p string, data []byte) error {
 	fd, err := unix.Open(w.root, w.flags, w.perm)
+	if ferr := verifhook.Fault("fstree.file.open"); ferr != nil && err == nil {
+		_ = unix.Close(fd)
+		err = ferr
+	}
+	verifhook.Point("fstree.after.file.open")
 	if err != nil {
 		return fmt.Errorf("unix open: %w", err)
 	}
 	tmpPath := "/proc/self/fd/" + strconv.FormatUint(uint64(fd), 10)
 	n, err := unix.Write(fd, data)
+	if ferr := verifhook.Fault("fstree.file.write"); ferr != nil && err == nil {
+		err = ferr
+	}
+	verifhook.Point("fstree.after.file.write")
 	if err == nil {
 		if n == len(data) {
 			err = unix.Linkat(unix.AT_FDCWD, tmpPath, unix.AT_FDCWD, p, unix.AT_SYMLINK_FOLLOW)
+			if ferr := verifhook.Fault("fstree.file.linkat"); ferr != nil {
+				if err == nil {
+					_ = unix.Unlink(p) // the injected failure stands for a link that was not made
+				}
+				err = ferr
+			}
+			verifhook.Point("fstree.after.file.linkat")
 			if errors.Is(err, unix.EEXIST) {
 				// https://github.com/nspcc-dev/neofs-node/issues/2563
 				err = nil
@@ -248,6 +289,10 @@ func (w *linuxWriter) writeFile(p string, data []byte) error {
 		}
 	}
 	errClose := unix.Close(fd)
+	if ferr := verifhook.Fault("fstree.file.close"); ferr != nil && errClose == nil {
+		errClose = ferr
+	}
+	verifhook.Point("fstree.after.file.close")
 	if err != nil {
 		return fmt.Errorf("unix write: %w", err) // Close() error is ignored, we have a better one.
 	}
